@@ -291,7 +291,7 @@ type caseIn struct {
 	Created      string // class: "absent", "valid", "malformed", "edge"
 	CreatedValue string
 	Target       string
-	Preload      string // "none", "placeholders", "other-type", "supplied-missing"
+	Preload      string            // "none", "placeholders", "other-type", "supplied-missing"
 	blobs        map[string][]byte // digest -> content of supplied blobs
 }
 
